@@ -125,7 +125,9 @@ claim(
     "function of the per-entry pipeline keeps module-level state or memoises; for each of the 8 CLI emit kinds the emitter resolves, get_emit_kwarg has the key, the "
     "keywords are parameters of the resolved emitter and its required parameters are supplied (exhaustive "
     "over the finite kind set); the keyword carrying the templated name is the one that names the emitted "
-    "symbol.",
+    "symbol; `__future__` imports are ordered first (sorted / list.sort key and direction, or partition order); the "
+    "per-symbol results of infer_imports (None for an import-free symbol) pass a None filter before they are "
+    "iterated, and the rendered import statements are joined by a statement separator.",
     "NOT decided: that the written module compiles for every input, that each generated symbol re-parses "
     "to its source entry, completeness of import inference (value level). Trusted: folding of the repo's "
     "own tables from source.",
@@ -139,8 +141,10 @@ claim(
     "Decides necessary conditions only: every kind the CLI admits (and every constant infer can return) "
     "dispatches to a parser/emitter module and attribute that exist (exhaustive over the finite kind set); "
     "`sync --truth` choices are keys of the conformance table; every IR dict literal in the parsers uses "
-    "only IntermediateRepr keys; the three None sentinels agree in every version branch. A conversion chain "
-    "cannot preserve anything through a hop whose dispatch raises.",
+    "only IntermediateRepr keys; the three None sentinels agree in every version branch; for every exmod emit kind "
+    "the keyword under which _emit_symbol passes the symbol's name (folded per kind) is a parameter of the resolved "
+    "emitter; single-hop conditions shared with C02 (Optional decision, truthiness of defaults, escape pairs, exact "
+    "type tests on defaults). A conversion chain cannot preserve anything through a hop whose dispatch raises.",
     "NOT decided: commutation of conversions and equality of the interface after several hops (value "
     "level, quantified over histories) — no static argument in reach bounds it.",
     "DESIGN.md §2 C03",
@@ -171,7 +175,9 @@ claim(
     "that the IR certainly has name, doc and params and no key outside the IntermediateRepr TypedDict; that "
     "constant keys written into parameter entries are in {typ, doc, default, x_typ}; that a parameter entry "
     "adopted from a foreign-vocabulary object (Column keywords, JSON property) passes a whitelist and that a "
-    "foreign key such a producer translates away is removed whenever present (not whenever truthy); that "
+    "foreign key such a producer translates away is removed whenever present (not whenever truthy) and is "
+    "certainly absent at EVERY exit once it is removed on some path (inter-procedural must-be-absent key "
+    "typestate: callee / nested-helper summaries, literal loops unrolled, short-circuit aware); that "
     "names taken from source are stripped of leading asterisks; that function.parse reads every "
     "parameter-carrying field of ast.arguments.",
     "NOT decided: that a typ string parses as a Python expression, uniqueness of names coming out of free "
@@ -210,7 +216,9 @@ claim(
     "the six interface-carrying add_argument keywords are written and read under the same names; the "
     "reader's Optional decision depends only on what the writer encodes; no parameter default is tested by "
     "truthiness, directly or through filter(None, ...) over keyword values (0 / False / '' are values); a writer "
-    "that escapes characters (.replace(A, B)) has a reader that un-escapes them.",
+    "that escapes characters (.replace(A, B)) has a reader that un-escapes them; no default is classified by an "
+    "exact type test that names int but not bool (keyword reads are recognised in place, through lookup helpers and "
+    "through dicts keyed by keyword names).",
     "NOT decided: equality of the re-parsed interface for all parameter lists; nothing about types, "
     "descriptions or default values (value level). One symbol-wide exemption of the truthiness rule "
     "(function.emit's return default is code text).",
@@ -229,7 +237,11 @@ claim(
     "is dominated by the absence test and the stores are mutually exclusive (at most one more than the input "
     "had); the hybrid and class parsers return exactly the table parser's result on the class-to-table "
     "normal form, so the three variants cannot disagree on parsing; the Column reader wraps a type in Optional "
-    "depending on `nullable` only (what the emitter encodes); no guard reads a key that was translated away.",
+    "depending on `nullable` only (what the emitter encodes); no guard reads a key that was translated away; "
+    "the hybrid `__table__ = Table(name, ...)` reaches the Table parser as the Table call (not as an assignment the "
+    "parser would name `__table__` and reject); the test whether a column `id` exists looks at the mapping the "
+    "synthetic `id` column is stored into; the [PK]/[FK(..)] markers are not cut with strip-family calls (character "
+    "sets); the tables are inverse in both import states (with and without the OpenAPI module's update).",
     "NOT decided: round-trip equality for all column lists (names, order, defaults, descriptions) — value level.",
     "DESIGN.md §2 C05",
 )
@@ -247,10 +259,14 @@ claim(
     "D->DELETE item, both in the OpenAPI emitter and in the generated routes, and each arm executes exactly when "
     "its letter is requested (all 15 orderings of the non-empty subsets folded); the item path's template "
     "parameter is declared as a path parameter; no function of the pipeline memoises or keeps module state "
-    "(operation objects are not shared between models or documents).",
-    "NOT decided: closure of openapi_bulk's output (component key = table name transformed by "
-    ".replace('_tbl','').title(), references come out of route docstrings at run time — a convention about "
-    "data); JSON serialisability of arbitrary models; routes fed back describe the same model.",
+    "(operation objects are not shared between models or documents). For openapi_bulk: the schema of a class "
+    "model is filed under the class's own name, unchanged (no case-changing or renaming call on the key — the "
+    "name routes refer to); routes appended to an existing routes file start on a line of their own; the column "
+    "entries that become schema properties come from a producer with a whitelist (else AST-valued keywords such "
+    "as server_default=Identity() make the document non-serialisable: known finding).",
+    "NOT decided: closure of openapi_bulk's output beyond the key rule (references come out of route docstrings at "
+    "run time); JSON serialisability of arbitrary models beyond the producer rule; routes fed back describe the "
+    "same model.",
     "DESIGN.md §2 C16",
 )
 
@@ -266,7 +282,9 @@ claim(
     "node being absent; every write reachable from ground_truth goes to the loop's target filename through "
     "cdd.shared.emit.file.file, the truth file is opened read-only; every listed (kind, file) pair reaches "
     "_conform_filename (no skip that ignores the kind); nothing reachable from ground_truth memoises or keeps "
-    "module state; --truth choices are table keys.",
+    "module state; --truth choices are table keys; every call of the emitter in _conform_filename (directly or "
+    "through a **kwargs-forwarding helper) passes the name options of the requested target (_default_options), so "
+    "a missing file is created under the listed name.",
     "NOT decided: equivalence of the re-parsed interface with the truth; idempotence of black (value level).",
     "DESIGN.md §2 C12",
 )
